@@ -223,6 +223,10 @@ class World:
         from stabilize.queue.processor.handler_base import MessageHandler
 
         calls = self.handler_calls
+        # message ids whose NEXT handling fails after the handler has returned (i.e. after its commit): what a handler's own
+        # post-commit work (audit sink, event bus subscriber) does when it raises
+        self.fault_after: set[str] = set()
+        faults = self.fault_after
 
         def proxy_for(inner):  # noqa: ANN001
             class Proxy(MessageHandler):  # type: ignore[type-arg]
@@ -231,8 +235,13 @@ class World:
                     return inner.message_type
 
                 def handle(self, message):  # noqa: ANN001
-                    calls.append((str(getattr(message, "message_id", None)), inner.message_type.__name__))
-                    return inner.handle(message)
+                    mid = str(getattr(message, "message_id", None))
+                    calls.append((mid, inner.message_type.__name__))
+                    r = inner.handle(message)
+                    if mid in faults:
+                        faults.discard(mid)
+                        raise RuntimeError("injected failure after the handler returned (post-commit work of the handler failed)")
+                    return r
 
             p = Proxy()
             p.inner = inner  # type: ignore[attr-defined]
